@@ -163,4 +163,56 @@ def FunHeader (toks : List Tok) (p f : Nat) : Prop :=
 instance (toks : List Tok) (p f : Nat) : Decidable (FunHeader toks p f) := by
   unfold FunHeader; infer_instance
 
+/-- the start of the reported range of a function / method header whose NAME token has index `n`:
+the keyword `function` directly in front of the name belongs to the header -/
+def funStart (toks : List Tok) (n : Nat) : Nat :=
+  if 0 < n ∧ KeywordAt toks (n - 1) [102, 117, 110, 99, 116, 105, 111, 110] then n - 1 else n
+
+/-! ## the arrow-function pattern of JavaScript and TypeScript
+
+`[Optional(Keyword("const")), Name(), Operator("="), Optional(Keyword("async")),
+OneOrMore(Balanced("(", ")"))]` with the follow-up `[Symbol("=>"), Symbol("{")]`. -/
+
+/-- the token range `[p, f)` is an arrow-function header: `[const] Name = [async]`, then `f` is just
+past the maximal run of parenthesis groups that starts at index `g` -/
+def ArrowHeader (toks : List Tok) (p f : Nat) : Prop :=
+  ∃ n g, (n = p ∨ (n = p + 1 ∧ KeywordAt toks p [99, 111, 110, 115, 116])) ∧ NameAt toks n ∧
+    OperatorAt toks (n + 1) [61] ∧
+    (g = n + 2 ∨ (g = n + 3 ∧ KeywordAt toks (n + 2) [97, 115, 121, 110, 99])) ∧
+    OpenAt toks g ∧ f = groupsEnd toks g
+
+/-- the index of the first parenthesis of an assigned arrow function whose NAME token has index
+`n`: `n + 2` (`Name = (`), or `n + 3` when the keyword `async` stands at `n + 2` -/
+def arrowOpen (toks : List Tok) (n : Nat) : Nat :=
+  if KeywordAt toks (n + 2) [97, 115, 121, 110, 99] then n + 3 else n + 2
+
+/-- `toks[n]` is a Name token directly followed by `= (` or `= async (`: the start shape of the arrow
+pattern (after the optional `const`) -/
+def ArrowStartAt (toks : List Tok) (n : Nat) : Prop :=
+  NameAt toks n ∧ OperatorAt toks (n + 1) [61] ∧ OpenAt toks (arrowOpen toks n)
+
+/-- an assigned arrow function whose NAME token has index `n`: `Name = [async] ( … )+`, `f` just past
+the maximal run of parenthesis groups -/
+def ArrowHeaderAt (toks : List Tok) (n f : Nat) : Prop :=
+  ArrowStartAt toks n ∧ f = groupsEnd toks (arrowOpen toks n)
+
+/-- the follow-up test of the arrow pattern at index `f`: the symbol `=>` directly followed by the
+symbol `{` -/
+def ArrowFollow (toks : List Tok) (f : Nat) : Prop :=
+  SymbolAt toks f [61, 62] ∧ SymbolAt toks (f + 1) [123]
+
+/-- the start of the reported range of an arrow header whose NAME token has index `n`: the keyword
+`const` directly in front of the name belongs to the header -/
+def constStart (toks : List Tok) (n : Nat) : Nat :=
+  if 0 < n ∧ KeywordAt toks (n - 1) [99, 111, 110, 115, 116] then n - 1 else n
+
+instance (toks : List Tok) (n : Nat) : Decidable (ArrowStartAt toks n) := by
+  unfold ArrowStartAt; infer_instance
+
+instance (toks : List Tok) (n f : Nat) : Decidable (ArrowHeaderAt toks n f) := by
+  unfold ArrowHeaderAt; infer_instance
+
+instance (toks : List Tok) (f : Nat) : Decidable (ArrowFollow toks f) := by
+  unfold ArrowFollow; infer_instance
+
 end CL.Syn
